@@ -499,7 +499,102 @@ fn expected_sizes(w: u32, h: u32) -> Vec<(u32, u32)> {
     v
 }
 
+/// `S <w> <filter> <variant> <seed>`: ONE encoder writes the six faces of a w x w cube map with generated mipmaps,
+/// every face carried by a colour format drawn from the seed (so the byte sizes of successive inputs grow and
+/// shrink), once from 4-aligned contiguous buffers and once from `variant` buffers holding the same pixels. The
+/// alignment / row-pitch clause demands the same file. (The scratch buffers an encoder keeps between surfaces are
+/// reused here, which single-image cases never do.) Result `seq ok` on both sides: the model has nothing to add.
+fn run_seq(t: &[&str]) -> Option<(String, Vec<String>)> {
+    if t.len() != 5 {
+        return None;
+    }
+    let w: u32 = t[1].parse().ok()?;
+    if w == 0 || w > 64 {
+        return None;
+    }
+    let filter = *FILTERS.iter().find(|f| filter_name(**f) == t[2])?;
+    let variant = t[3];
+    if !VARIANTS.contains(&variant) {
+        return None;
+    }
+    let seed: u64 = t[4].parse().ok()?;
+    let mut rng = Rng::new(seed ^ 0x5E9);
+    let faces: Vec<(Channels, Prec)> = (0..6).map(|_| (*rng.pick(&CHANS), *rng.pick(&PRECS))).collect();
+    let encode = |variant: &str| -> Result<Vec<u8>, String> {
+        let mut file: Vec<u8> = Vec::new();
+        {
+            let header = dds::header::Header::new_cube_map(w, w, Format::R8G8B8A8_UNORM).with_mipmaps();
+            let mut enc = Encoder::new(&mut file, Format::R8G8B8A8_UNORM, &header).map_err(|e| format!("err new {e:?}"))?;
+            enc.mipmaps.generate = true;
+            enc.mipmaps.resize_filter = filter;
+            for (i, (chan, prec)) in faces.iter().enumerate() {
+                let color = ColorFormat::new(*chan, precision(*prec));
+                let bpr = w as usize * nch(*chan) * prec.bytes();
+                let (off, pitch) = match variant {
+                    "al" => (0usize, bpr),
+                    "o1" => (1, bpr),
+                    "o2" => (2, bpr),
+                    "o3" => (3, bpr),
+                    _ => ((seed % 4) as usize, bpr + 1 + ((seed / 4 + i as u64) % 11) as usize),
+                };
+                let len = pitch * (w as usize - 1) + bpr;
+                let mut store = vec![0xA5A5_A5A5u32; (off + len + pitch) / 4 + 2];
+                let bytes: &mut [u8] = unsafe { std::slice::from_raw_parts_mut(store.as_mut_ptr() as *mut u8, store.len() * 4) };
+                // the same pixels for every variant
+                let mut r2 = Rng::new(seed.wrapping_mul(31).wrapping_add(i as u64));
+                for y in 0..w as usize {
+                    let s = off + y * pitch;
+                    let row = &mut bytes[s..s + bpr];
+                    match prec {
+                        Prec::F32 => {
+                            for k in 0..bpr / 4 {
+                                let v = r2.below(1001) as f32 / 1000.0;
+                                row[4 * k..4 * k + 4].copy_from_slice(&v.to_ne_bytes());
+                            }
+                        }
+                        _ => {
+                            for b in row.iter_mut() {
+                                *b = r2.next() as u8;
+                            }
+                        }
+                    }
+                }
+                let view = ImageView::new_with(&bytes[off..off + len], pitch, Size::new(w, w), color).ok_or("err view")?;
+                enc.write_surface(view).map_err(|e| format!("err write face {i}: {e:?}"))?;
+            }
+            enc.finish().map_err(|e| format!("err finish {e:?}"))?;
+        }
+        Ok(file)
+    };
+    let mut oracle = vec![];
+    let a = encode("al");
+    let b = encode(variant);
+    match (&a, &b) {
+        (Ok(x), Ok(y)) => {
+            if x != y {
+                let at = x.iter().zip(y.iter()).position(|(p, q)| p != q);
+                oracle.push(format!(
+                    "alignment: the cube-map file differs between aligned and {variant} input of the same pixels (lengths {} / {}, first difference at byte {:?})",
+                    x.len(),
+                    y.len(),
+                    at
+                ));
+            }
+            Some(("seq ok".into(), oracle))
+        }
+        (x, y) => {
+            let e = x.as_ref().err().or(y.as_ref().err()).cloned().unwrap_or_default();
+            oracle.push(format!("sequence failed: {e}"));
+            Some((format!("seq {e}"), oracle))
+        }
+    }
+}
+
 pub fn run(line: &str) -> Option<(String, Vec<String>)> {
+    let t: Vec<&str> = line.split_whitespace().collect();
+    if t.first() == Some(&"S") {
+        return run_seq(&t);
+    }
     let c = parse(line)?;
     let img = make_image(&c)?;
     let mut oracle: Vec<String> = Vec::new();
@@ -891,6 +986,15 @@ pub fn gen(seed: u64, thorough: bool) -> Vec<String> {
                 out.push(line(w, h, Channels::Rgba, prec, f, rng.chance(1, 2), "al", "opaque", rng.next() >> 16));
             }
         }
+    }
+
+    // ---- A3. several surfaces through one encoder (cube map faces in changing colour formats)
+    let nseq = if thorough { 900 } else { 90 };
+    for i in 0..nseq {
+        let w = *rng.pick(&[4u32, 5, 8, 9, 16, 3]);
+        let f = *rng.pick(&[ResizeFilter::Box, ResizeFilter::Triangle, ResizeFilter::Mitchell, ResizeFilter::Nearest]);
+        let var = VARIANTS[1 + i % 4];
+        out.push(format!("S {w} {} {var} {}", filter_name(f), rng.next() >> 16));
     }
 
     // ---- B. size sweep
